@@ -314,6 +314,14 @@ pub struct Generated {
 }
 
 /// `codegen(idl text) -> Rust source`, injected by build.rs (which links /repo's zlink_codegen).
+/// Several interfaces generated into ONE module (what the command-line tool does for several input
+/// files): descriptions with comments in front of `interface`, on members and on fields.
+pub const MULTI_IDLS: [&str; 3] = [
+    "# Battery state of the machine.\n# (second line)\ninterface org.multi.battery\n\n# one slot\ntype Slot (\n  # its number\n  id: int,\n  label: ?string\n)\n\n# read a slot\nmethod GetSlot(slotId: int) -> (slot: Slot)\n\nerror NoBattery (slotId: int)\n",
+    "interface org.multi.plain\n\nmethod Ping() -> ()\n",
+    "# The clock.\ninterface org.multi.clock\n\ntype Tick (unixTime: int, level: (low, high))\n\nmethod Now() -> (tick: Tick)\n\n# never in sync\nerror Skewed ()\n",
+];
+
 pub fn generate(thorough: bool, dir: &str, codegen: &dyn Fn(&str) -> Result<String, String>) -> Generated {
     let ifaces = interfaces(thorough);
     let mut modules = Vec::new();
@@ -331,7 +339,9 @@ pub fn generate(thorough: bool, dir: &str, codegen: &dyn Fn(&str) -> Result<Stri
             Ok(code) => {
                 // method function names, positionally
                 let fn_names: Vec<String> = code.lines().filter_map(|l| l.trim().strip_prefix("async fn ").map(|r| r.split('(').next().unwrap_or("").to_string())).collect();
-                let code = code.lines().filter(|l| !l.starts_with("//!")).collect::<Vec<_>>().join("\n");
+                // the header of inner doc comments at the very top can not be `include`d into a module
+                // body and is left out; such a line anywhere else stays (and must not be there)
+                let code = code.lines().skip_while(|l| l.starts_with("//!") || l.trim().is_empty()).collect::<Vec<_>>().join("\n");
                 // Rust names of the generated custom types, positionally: after the `…Output`
                 // structs come the custom types in IDL order, then the error enum
                 let decls: Vec<String> = code
@@ -422,6 +432,19 @@ pub fn generate(thorough: bool, dir: &str, codegen: &dyn Fn(&str) -> Result<Stri
         writeln!(index, "#[path = \"{dir}/iface_{k}.rs\"]\npub mod iface_{k};").unwrap();
         cases.push(format!("iface_{k}::case"));
     }
+    // the multi-interface module: the generated text goes into a file of its own, verbatim
+    match codegen("\u{0}multi") {
+        Ok(code) => {
+            let traits = code.lines().filter(|l| l.trim_start().starts_with("pub trait ")).count();
+            modules.push(("multi_gen.rs".to_string(), format!("#![allow(dead_code, unused_imports, non_camel_case_types, non_snake_case, clippy::all)]\n{code}")));
+            writeln!(index, "#[path = \"{dir}/multi_gen.rs\"]\npub mod multi_gen;").unwrap();
+            writeln!(index, "pub fn case_multi(sink: &mut Sink<'_>) {{\n    check(sink, \"org.multi.*\", \"three interfaces generated into one module: one proxy trait each\", {traits} == 3, \"{traits} traits\");\n}}").unwrap();
+        }
+        Err(e) => {
+            writeln!(index, "pub fn case_multi(sink: &mut Sink<'_>) {{ sink.fail(\"codegen:generator-refuses-valid-interface\", {:?}, json!({{\"interface\": \"multi\"}})); }}", format!("several interfaces into one module: {e}")).unwrap();
+        }
+    }
+    cases.push("case_multi".into());
     writeln!(index, "pub const CASES: &[fn(&mut Sink<'_>)] = &[{}];", cases.join(", ")).unwrap();
     writeln!(index, "pub const IDLS: &[&str] = &[{}];", (0..ifaces.len()).map(|k| format!("iface_{k}::IDL")).collect::<Vec<_>>().join(", ")).unwrap();
     writeln!(index, "pub const N_INTERFACES: usize = {};", ifaces.len()).unwrap();
